@@ -300,6 +300,27 @@ fn check_set(ctx: &Ctx, ra: &ReqAlphabet, set: &[&Pre], cn: &Counters, samples: 
                     }
                     let req = || Req { method: mname.clone(), path: pstr.clone(), version: rvv.cloned() };
                     let on_path_sib = (0..table.len()).any(|i| sib[i] && table[i].m[pi].is_some());
+                    // What the known wildcard-sibling defect (B) produces: when the path ends at a node that has
+                    // a wildcard child, only the child's endpoints are consulted. `explained_by_b` = the observed
+                    // outcome is exactly that answer (and differs from the expected one, or no violation is raised).
+                    let explained_by_b = on_path_sib && {
+                        let wild: Vec<&&Pre> = table.iter().filter(|t| {
+                            matches!(t.segs.last(), Some(Seg::Wild(_))) && matches!(&t.m[pi], Some(b) if b.values().any(|v| matches!(v, Binding::Many(x) if x.is_empty())))
+                        }).collect();
+                        let in_range = |t: &Pre| if vi < ra.versions.len() { t.c[vi] } else { true };
+                        let b_answer = match wild.iter().find(|t| &t.spec.method == mname && in_range(t)) {
+                            Some(t) => Obs::Ok { op: t.spec.op.clone(), vars: t.m[pi].clone().unwrap() },
+                            None => {
+                                let allow: BTreeSet<String> = wild.iter().filter(|t| in_range(t)).map(|t| t.spec.method.clone()).collect();
+                                if allow.is_empty() { Obs::Err { status: 404, allow, allow_raw: vec![] } } else { Obs::Err { status: 405, allow, allow_raw: vec![] } }
+                            }
+                        };
+                        match (&o, &b_answer) {
+                            (Obs::Ok { op: a, vars: va }, Obs::Ok { op: b, vars: vb }) => a == b && va == vb,
+                            (Obs::Err { status: s1, allow: a1, .. }, Obs::Err { status: s2, allow: a2, .. }) => s1 == s2 && a1 == a2,
+                            _ => false,
+                        }
+                    };
                     if mt.len() >= 1 {
                         nontrivial = true;
                     }
@@ -316,7 +337,8 @@ fn check_set(ctx: &Ctx, ra: &ReqAlphabet, set: &[&Pre], cn: &Counters, samples: 
                                     Obs::Panic(_) => "panic",
                                 };
                                 ctx.report(Violation {
-                                    sig: json!({"kind":"dispatch","wildcard_sibling_exact_path": on_path_sib, "observed": observed_kind}),
+                                    sig: json!({"kind":"dispatch","wildcard_sibling_exact_path": on_path_sib, "observed": observed_kind,
+                                        "expected_endpoint_is_the_exact_route": sib[mt[0]], "answered_from_wildcard_child_only": explained_by_b}),
                                     case: case(Some(&req())),
                                     expected: want.to_json(),
                                     observed: o.to_json(),
@@ -363,7 +385,7 @@ fn check_set(ctx: &Ctx, ra: &ReqAlphabet, set: &[&Pre], cn: &Counters, samples: 
                                 };
                                 ctx.report(Violation {
                                     sig: json!({"kind":"unmatched","served_empty": served.is_empty(), "versioned": rvv.is_some() && !all_all,
-                                        "wildcard_sibling_exact_path": on_path_sib, "observed": observed_kind}),
+                                        "wildcard_sibling_exact_path": on_path_sib, "observed": observed_kind, "answered_from_wildcard_child_only": explained_by_b}),
                                     case: case(Some(&req())),
                                     expected,
                                     observed: o.to_json(),
